@@ -98,6 +98,10 @@ Calls ==
      {MkCall("ESDTNFTTransfer", a, a, <<TokArg(TokN), NumArgC(1), NumArgC(1), AddrArgC("c1a"), RawArg("66"), RawArg("01")>>, 0) : a \in Hs}
    ELSE {})
   \cup (IF "MultiESDTNFTTransfer" \in Fns THEN
+     \* flagged return-after-error on the sender side: freeze and pause do not apply, the flags themselves must not move
+     {[MkCall("MultiESDTNFTTransfer", a, a, <<AddrArgC(b), NumArgC(1), TokArg(TokF), NumArgC(0), NumArgC(q)>>, 0) EXCEPT !.rae = TRUE] : a \in Hs, b \in Hs, q \in 1..2}
+   ELSE {})
+  \cup (IF "MultiESDTNFTTransfer" \in Fns THEN
      \* the fungible key "46" named through the empty token id and nonce 0x46; the NFT key "4e01" named through "" and nonce 0x4e01
      {MkCall("MultiESDTNFTTransfer", a, a, <<AddrArgC(b), NumArgC(1), TokArg(""), NumArgC(n), NumArgC(1)>>, 0) : a \in Hs, b \in Hs, n \in {70, 19969}}
    ELSE {})
